@@ -55,6 +55,26 @@ func syncMapOf(fr *frame, recv value, write bool) *omap {
 	return m
 }
 
+func sortSliceIntrinsic(fr *frame, args []value) (value, bool) {
+	it, ok := args[0].(iface)
+	if !ok {
+		return nil, false
+	}
+	xs, ok := it.v.([]value)
+	if !ok {
+		return nil, false
+	}
+	less := func(i, j int) bool {
+		return truth(call(fr.i, fr, token.NoPos, args[1], []value{i, j}))
+	}
+	for i := 1; i < len(xs); i++ {
+		for j := i; j > 0 && less(j, j-1); j-- {
+			xs[j], xs[j-1] = xs[j-1], xs[j]
+		}
+	}
+	return nil, true
+}
+
 func allConcrete(args []value) bool {
 	for _, a := range args {
 		if hasSymbolicDeep(a, 0) {
@@ -519,6 +539,10 @@ func init() {
 			}
 			return strings.Repeat(args[0].(string), n), true
 		},
+		// sort.Slice / sort.SliceStable: reflectlite is not interpretable; a stable insertion sort
+		// calling the less closure (any order among equal elements is within sort.Slice's contract)
+		"sort.Slice":       sortSliceIntrinsic,
+		"sort.SliceStable": sortSliceIntrinsic,
 		"sort.Strings": func(fr *frame, args []value) (value, bool) {
 			if !allConcrete(args) {
 				return nil, false
